@@ -52,6 +52,7 @@ def CONCATENATE(*args):
     try:
         return ''.join((str(a) if not isinstance(test_arg(a), string_types) else a for a in utils.iflatten(args)))
     except XLError as xle:
+        xle.__traceback__ = None
         return xle
 
 
